@@ -3,9 +3,10 @@ from props import S
 CFG = {
     "properties_file": "Properties/C05.v",
     "extra_properties_files": ["Properties/C05w.v"],
-    "corr_files": ["Corr/C05.v", "Corr/C05w.v"],
-    "streams": [S("C05", "drive_handles", 300, 20000), S("C05w", "drive_nfs", 100, 5000)],
-    "rule": "C05: allocation histories (Allocate/Release/ReleaseAll) on the real FileHandleMap over 1-40 paths, max in "
+    "corr_files": ["Corr/C05.v", "Corr/C05w.v", "Corr/C05c.v"],
+    "streams": [S("C05", "drive_handles", 300, 20000), S("C05w", "drive_nfs", 100, 5000),
+                S("C05c", "drive_handles", 150, 4000)],
+    "rule": "C05c: concurrent rounds (2-16 goroutines behind a spin barrier allocate the same fresh path, 30-70 rounds per case) on the real FileHandleMap - sampled interleavings, oracle only. C05: allocation histories (Allocate/Release/ReleaseAll) on the real FileHandleMap over 1-40 paths, max in "
             "{<=0,1,2,3,5,10,11,25}, length up to 6x max; non-trivial = contains an eviction or an id reuse. C05w: request "
             "histories over a populated tree with handle limit in {0,1,2,3,5,10,11}; every reply that returns a handle (MNT, "
             "LOOKUP, CREATE, MKDIR, SYMLINK, every READDIRPLUS entry) is followed at once by GETATTR on it; non-trivial = more "
